@@ -20,7 +20,7 @@ from vlib.core import Stage, Violation, fail
 ID = "C11"
 MANIFEST = {
     "category": "exploration",
-    "text": "Stateful generated-input search (Hypothesis RuleBasedStateMachine): histories of up to 30 (thorough 60) steps over a pool of condition and AHB expressions with known structure - parse (cache hit or miss), parse a fresh string, send a string through the resolver (which replaces time conditions), use a string as the body of a package and expand it, edit a previously returned tree (incl. the expanded one) in place (replace / delete / append / clear / reverse children, overwrite the rule name, at any depth; overwrite the .value or .type attribute of a token), flood both caches with 1100 distinct strings so that the 1024-entry LRU evicts, evaluate under an assignment. Invariant after every step: the tree returned for a string matches the AST it was rendered from and equals the pristine deep copy of the first parse in this history; evaluation equals the reference evaluator. Caches are cleared at the start of every history.",
+    "text": "Stateful generated-input search (Hypothesis RuleBasedStateMachine): histories of up to 30 (thorough 60) steps over a pool of condition and AHB expressions with known structure - parse (cache hit or miss), parse a fresh string, send a string through the resolver (which replaces time conditions), use a string as the body of a package and expand it, edit a previously returned tree (incl. the expanded one) in place (replace / delete / append / clear / reverse children, overwrite the rule name, at any depth; overwrite the .value or .type attribute of a token), flood both caches with 1100 distinct strings so that the 1024-entry LRU evicts, evaluate under an assignment. Invariant after every step: the tree returned for a string matches the AST it was rendered from and equals the pristine deep copy of the first parse in this history; evaluation equals the reference evaluator. Caches are cleared at the start of every history. A second stage (cold-start) executes parse / flood / re-parse traces in a freshly started interpreter, so that the first use of both parsers in a process is judged as well; a quarter of the AHB pool strings (half of them there) carry no-break or other Unicode spaces inside their condition parts, which the AHB parser on its own must hand back unchanged.",
     "note": "Trusted: ref.match / the AHB split oracle, the reference evaluator, copy.deepcopy of lark trees, Hypothesis' stateful engine. Histories are bounded in length; the flood rule runs at most once per history. Process configuration by shard (vlib/sut.py; recorded in replay files): plain / parse caches preheated beyond their size / warnings attributed to ahbicht raised as errors / logging fully enabled with every record rendered.",
     "technique": "stateful / model-based property testing (rule-based state machine over parse-edit-evict histories with a cache-independent oracle)",
 }
@@ -180,6 +180,8 @@ class Interpreter:
         from ahbicht.expressions.expression_resolver import parse_expression_including_unresolved_subexpressions
 
         entry = self.pool[index]
+        if entry.get("raw"):
+            return  # only the AHB parser on its own accepts this spelling (see pool_entry)
         res = sut.call(parse_expression_including_unresolved_subexpressions, entry["s"], False, True)
         if not res.ok:
             fail("rejected", f"resolver raised {res!r} for the well-formed {entry['s']!r}")
@@ -260,8 +262,8 @@ def classify(case, info):
 
 
 @st.composite
-def pool_entry(draw, size):
-    kind = draw(st.sampled_from(["cond", "dom", "dom", "ahb"]))
+def pool_entry(draw, size, kinds=("cond", "dom", "dom", "ahb"), raw_one_in=4):
+    kind = draw(st.sampled_from(list(kinds)))
     if kind == "cond":
         ast = draw(gen.g_expr(max_atoms=size))
         return {"kind": "cond", "ast": ast, "s": gen.render(draw, ast)}
@@ -275,7 +277,59 @@ def pool_entry(draw, size):
         if has_cond:
             cond = gen.render(draw, draw(gen.g_expr(max_atoms=max(1, size // 2))), redundant=False, top=False)
         parts.append((indicator, cond))
-    return {"kind": "ahb", "parts": [list(p) for p in parts], "s": gen.render_ahb(draw, parts)}
+    entry = {"kind": "ahb", "parts": [list(p) for p in parts], "s": gen.render_ahb(draw, parts)}
+    if draw(st.sampled_from(range(raw_one_in))) == 0:
+        # The AHB parser on its own only checks that a condition part looks like one: any Unicode whitespace is fine
+        # there (no-break space, figure space ... - what arrives when an expression is pasted from a PDF).  Such an
+        # entry is 'raw': it is only ever given to the AHB parser, whose token must be the written text, unchanged.
+        exotic = draw(st.sampled_from(RAW_SPACES))
+        raw_parts = []
+        for indicator, cond in parts:
+            if cond is not None and "]" in cond[:-1]:
+                cut = cond.index("]") + 1
+                cond = cond[:cut] + exotic + cond[cut:].replace(" ", exotic)
+            raw_parts.append((indicator, cond))
+        if raw_parts != parts:
+            entry = {"kind": "ahb", "raw": True, "parts": [list(p) for p in raw_parts], "s": gen.render_ahb(draw, raw_parts)}
+    return entry
+
+
+RAW_SPACES = ["\u00a0", "\u2007", "\u202f", "\u2003", "\u3000", "\x1f", "\x85"]
+
+
+# ------------------------------------------------------------------------------ cold start: first use in a process
+
+
+def check_cold(case):
+    """the same trace interpreter, but in a fresh interpreter process: the first parses of the process are judged"""
+    from vlib import coldstart
+
+    return coldstart.run("C11", "histories", {"ops": case["ops"]})
+
+
+def strategy_cold(tier):
+    size = 5 if tier == "quick" else 8
+
+    @st.composite
+    def build(draw):
+        # the first uses of both parsers matter: always an AHB expression (half of them in a raw spelling) among them
+        entries = [draw(pool_entry(size, kinds=("ahb",), raw_one_in=2))] + draw(st.lists(pool_entry(size), min_size=1, max_size=4))
+        ops = [{"op": "add", "entry": entry} for entry in entries]
+        order = draw(st.permutations(range(len(entries))))
+        ops += [{"op": "parse", "i": i} for i in order]
+        ops.append({"op": "flood", "base": draw(st.integers(100000, 900000))})
+        ops += [{"op": "parse", "i": i} for i in order]
+        return {"ops": ops}
+
+    return build()
+
+
+def classify_cold(case, info):
+    entries = [op["entry"] for op in case["ops"] if op["op"] == "add"]
+    first = next(op for op in case["ops"] if op["op"] == "parse")
+    first_ahb = next(entries[op["i"]] for op in case["ops"] if op["op"] == "parse" and entries[op["i"]]["kind"] == "ahb")
+    labels = ["first-parse=" + entries[first["i"]]["kind"], "first-ahb-parse=" + ("raw" if first_ahb.get("raw") else "plain")]
+    return labels, bool(info["reparse_after_flood"])
 
 
 def make_machine(tier, recorder):
@@ -359,4 +413,7 @@ STAGES = [
           floors={"edit-then-reparse": 0.25, "evict-then-reparse": 0.03},
           shrink_budget={"quick": 1500, "thorough": 6000},
           sample=lambda c: {"ops": [op if op["op"] != "add" else {"op": "add", "s": op["entry"]["s"], "kind": op["entry"]["kind"]} for op in c["ops"][:14]]}),
+    Stage(name="cold-start", kind="hyp", check=check_cold, classify=classify_cold, strategy=strategy_cold,
+          budget={"quick": 6, "thorough": 40}, floors={"first-ahb-parse=raw": 0.1}, shrink_budget={"quick": 30, "thorough": 200},
+          sample=lambda c: {"strings": [op["entry"]["s"] for op in c["ops"] if op["op"] == "add"]}),
 ]  # fmt: skip
